@@ -179,10 +179,13 @@ package boltz
 //@   modifies *
 //@   ensures[read-only] result != nil && dbSame()
 //@ func (*LinkedSetSymbol).IsLinked
-//@   props C09
+//@   props C09 C05
 //@   nosafety
 //@   modifies *
 //@   ensures[read-only] dbSame()
+//@   ensures[no-entity-no-link] !entPresent(lsStore(symbol), str(id)) ==> !result
+//@   ensures[linked-means-the-key-is-there] result ==> sel(bktHas[lsB(symbol, tx, str(id))], prepend(TypeString, str(link)))
+//@   ensures[a-plain-key-means-linked] entPresent(lsStore(symbol), str(id)) && lkListed(lsB(symbol, tx, str(id)), str(link)) ==> result
 //@ funcparam (*linkCollectionImpl).CheckIntegrity.errorSink(err, fixed)
 //@   requires[fixed-only-after-a-repair-in-fix-mode] fixed ==> ciFix && ciDirty
 //@   modifies *
@@ -266,7 +269,8 @@ package boltz
 //@   modifies *
 //@   ensures[read-only] dbSame()
 //@ func (*BaseStore).IterateValidIds
-//@   props C09
+//@   props C09 C15
 //@   nosafety
 //@   modifies *
 //@   ensures[read-only] dbSame()
+//@   ensures[an-extended-store's-cursor-starts-on-an-id-it-has-data-for] store.isExtended ==> istype(result, *ValidIdsCursors) && (curPos[as(result, *ValidIdsCursors).wrapped] < curLen[as(result, *ValidIdsCursors).wrapped] ==> entPresent(as(result, *ValidIdsCursors).store, sel(curSeq[as(result, *ValidIdsCursors).wrapped], curPos[as(result, *ValidIdsCursors).wrapped])))
